@@ -74,6 +74,8 @@ def _prog(combo, ending, cancels, outer, disp=0):
 def programs(tier: str):
     yield {"detached": True, "pauses": 1}
     yield {"detached": True, "pauses": 0}
+    for after in ("scope-returned", "scope-raised", "scope-cancelled", "scope-cancelled-in-exit"):
+        yield {"detached": True, "pauses": 1, "after": after}
     kmax = BOUNDS[tier]["max_spawns"]
     for k in range(0, kmax + 1):
         for combo in itertools.combinations_with_replacement(range(len(SPAWNS)), k):
@@ -110,15 +112,41 @@ def _detached(program, ch: Chooser) -> Result:
             st["end"] = "ret"
             return 5
 
+        async def blocked():
+            await w.pause("inner.blocked")
+
         async def main():
-            st["task"] = ctx.spawn(child)
+            after = program.get("after")
+            if after:
+                # a scope was entered and left before (also by a cancellation the task survives):
+                # afterwards the task is outside any scope again
+                try:
+                    async with ctx.scope("before"):
+                        if after == "scope-raised":
+                            raise ValueError("body")
+                        if after == "scope-cancelled":
+                            asyncio.current_task().cancel()
+                            await asyncio.sleep(0)
+                        if after == "scope-cancelled-in-exit":
+                            ctx.spawn(blocked)
+                            w.loop.call_soon(asyncio.current_task().cancel)
+                except ValueError:
+                    pass
+                except asyncio.CancelledError:
+                    asyncio.current_task().uncancel()
+            try:
+                st["task"] = ctx.spawn(child)
+            except BaseException as exc:  # noqa: BLE001
+                st["spawn_error"] = f"{type(exc).__name__}: {exc}"[:120]
 
         driver = w.task(main(), name="driver")
         w.settle()
         st["done_when_driver_returned"] = st["task"].done() if st["task"] else None
         if not driver.done():
             viols.append(viol("detached", "driver-waits", "driver returns at once", "blocked"))
-        if st["task"] is None or not isinstance(st["task"], asyncio.Task):
+        if st.get("spawn_error"):
+            viols.append(viol("detached", f"spawn-raises/{program.get('after', 'fresh')}", "a detached running task", st["spawn_error"]))
+        elif st["task"] is None or not isinstance(st["task"], asyncio.Task):
             viols.append(viol("detached", "no-task", "a running task", repr(st["task"])))
         try:
             w.run()
@@ -128,7 +156,7 @@ def _detached(program, ch: Chooser) -> Result:
             if not st["task"].done() or st["task"].cancelled() or st["task"].result() != 5:
                 viols.append(viol("detached", "task-does-not-complete", "result 5", "not done / cancelled"))
         obs = {"trace": w.trace, "done_at_return": st["done_when_driver_returned"]}
-        return Result(f"detached/p={program['pauses']}", True, viols, obs)
+        return Result(f"detached/p={program['pauses']}/{program.get('after', 'fresh')}", True, viols, obs)
     finally:
         w.close()
 
